@@ -1,0 +1,88 @@
+//go:build verif
+
+// Contracts for the deductive verifier in /verif (comment-only file; no code).
+// Syntax: see /verif/DESIGN.md section 2.2.
+
+package packets
+
+// verif:func packets.decodeUint16
+//@ requires 0 <= offset && offset <= len(buf)
+//@ ensures ok: r2 == nil ==> offset + 2 <= len(buf) && r1 == offset + 2 && int(r0) == u16(buf, offset)
+//@ ensures err: r2 != nil ==> offset + 2 > len(buf)
+//@ ensures bounds: 0 <= r1 && r1 <= len(buf)
+
+// verif:func packets.decodeUint32
+//@ requires 0 <= offset && offset <= len(buf)
+//@ ensures ok: r2 == nil ==> offset + 4 <= len(buf) && r1 == offset + 4 && int(r0) == u32(buf, offset)
+//@ ensures err: r2 != nil ==> offset + 4 > len(buf)
+//@ ensures bounds: 0 <= r1 && r1 <= len(buf)
+
+// verif:func packets.decodeByte
+//@ requires 0 <= offset && offset <= len(buf)
+//@ ensures ok: r2 == nil ==> offset < len(buf) && r1 == offset + 1 && r0 == buf[offset]
+//@ ensures err: r2 != nil ==> offset >= len(buf)
+//@ ensures bounds: 0 <= r1 && r1 <= len(buf)
+
+// verif:func packets.decodeByteBool
+//@ requires 0 <= offset && offset <= len(buf)
+//@ ensures ok: r2 == nil ==> offset < len(buf) && r1 == offset + 1 && (r0 <==> int(buf[offset]) % 2 == 1)
+//@ ensures err: r2 != nil ==> offset >= len(buf)
+//@ ensures bounds: 0 <= r1 && r1 <= len(buf)
+
+// verif:func packets.decodeBytes
+//@ requires 0 <= offset && offset <= len(buf)
+//@ ensures ok: r2 == nil ==> offset + 2 <= len(buf) && r1 == offset + 2 + u16(buf, offset) && r1 <= len(buf)
+//@ ensures content: r2 == nil ==> len(r0) == u16(buf, offset) && (forall i int :: 0 <= i && i < len(r0) ==> r0[i] == buf[offset+2+i])
+//@ ensures rejects-overlong: r2 != nil ==> offset + 2 > len(buf) || offset + 2 + u16(buf, offset) > len(buf)
+//@ ensures bounds: 0 <= r1 && r1 <= len(buf)
+
+// ---- variable byte integers (C29) ----
+// verif:def vlen(x int64) int = x < 128 ? 1 : (x < 16384 ? 2 : (x < 2097152 ? 3 : 4))
+// verif:def vb(d bytes, o int, j int) int64 = int64(d[o+j] & 127)
+// verif:def varint(d bytes, o int, k int) int64 = vb(d,o,0) + (k >= 2 ? vb(d,o,1) << 7 : 0) + (k >= 3 ? vb(d,o,2) << 14 : 0) + (k >= 4 ? vb(d,o,3) << 21 : 0)
+// verif:def shr7(x int64, n int) int64 = n == 0 ? x : (n == 1 ? x >> 7 : (n == 2 ? x >> 14 : (n == 3 ? x >> 21 : x >> 28)))
+
+// verif:func packets.encodeLength arith=bv
+//@ requires b != nil && 0 <= length && length <= 268435455
+//@ requires 0 <= b.blen && b.blen <= 1099511627776
+//@ modifies b.blen, b.bdata
+//@ ensures count: b.blen == old(b.blen) + vlen(length)
+//@ ensures value: varint(b.bdata, old(b.blen), vlen(length)) == length
+//@ ensures last-byte-ends: b.bdata[b.blen - 1] < 128
+//@ ensures earlier-bytes-continue: forall j int :: 0 <= j && j < vlen(length) - 1 ==> b.bdata[old(b.blen) + j] >= 128
+//@ ensures minimal: vlen(length) == 1 || b.bdata[b.blen - 1] != 0
+//@ ensures prefix-kept: forall i int :: 0 <= i && i < old(b.blen) ==> b.bdata[i] == old(b.bdata[i])
+// verif:loop packets.encodeLength 1
+//@ invariant n-range: 0 <= b.blen - old(b.blen) && b.blen - old(b.blen) <= 3
+//@ invariant rest: length == shr7(length0, b.blen - old(b.blen)) && (b.blen - old(b.blen) > 0 ==> length > 0)
+//@ invariant written: forall j int :: 0 <= j && j < b.blen - old(b.blen) ==> b.bdata[old(b.blen) + j] == byte(128 | (shr7(length0, j) & 127))
+//@ invariant prefix-kept: forall i int :: 0 <= i && i < old(b.blen) ==> b.bdata[i] == old(b.bdata[i])
+//@ decreases length
+
+// verif:def vpart(d bytes, o int, k int) uint32 = (k >= 1 ? uint32(d[o] & 127) : 0) | (k >= 2 ? uint32(d[o+1] & 127) << 7 : 0) | (k >= 3 ? uint32(d[o+2] & 127) << 14 : 0) | (k >= 4 ? uint32(d[o+3] & 127) << 21 : 0)
+
+// verif:func packets.DecodeLength arith=bv
+//@ requires b != nil && 0 <= b.rpos && b.rpos <= 1099511627776
+//@ modifies b.rpos
+//@ ensures at-most-4-bytes: err == nil ==> 1 <= bu && bu <= 4 && b.rpos == old(b.rpos) + bu
+//@ ensures value: err == nil ==> int64(n) == varint(b.rin, old(b.rpos), bu) && 0 <= n && n <= 268435455
+//@ ensures last-byte-ends: err == nil ==> b.rin[old(b.rpos) + bu - 1] < 128
+//@ ensures earlier-bytes-continue: err == nil ==> (forall j int :: 0 <= j && j < bu - 1 ==> b.rin[old(b.rpos) + j] >= 128)
+//@ ensures error-zero: err != nil ==> n == 0
+// verif:loop packets.DecodeLength 1
+//@ invariant count: 1 <= bu && bu <= 4 && b.rpos == old(b.rpos) + bu - 1
+//@ invariant mult: multiplier == uint32(7 * (bu - 1))
+//@ invariant partial: value == vpart(b.rin, old(b.rpos), bu - 1)
+//@ invariant continued: forall j int :: 0 <= j && j < bu - 1 ==> b.rin[old(b.rpos) + j] >= 128
+//@ decreases 5 - bu
+
+// Round trip (C29): for every value in range, the bytes the encoder writes are a stream the decoder
+// accepts with exactly that value -- a consequence of the two contracts above, no code involved.
+// verif:lemma varint_roundtrip arith=bv
+//@ vars x int64, d bytes, o int, k int
+//@ requires 0 <= x && x <= 268435455 && 0 <= o && o <= 1099511627776
+//@ requires k == vlen(x) && varint(d, o, k) == x
+//@ requires d[o + k - 1] < 128 && (forall j int :: 0 <= j && j < k - 1 ==> d[o + j] >= 128)
+//@ ensures decoder-agrees: 1 <= k && k <= 4 && int64(vpart(d, o, k)) == x
+//@ ensures minimal: k == 1 || x >= shl7(k - 1)
+// verif:def shl7(n int) int64 = n == 1 ? 128 : (n == 2 ? 16384 : 2097152)
